@@ -9,6 +9,8 @@ import RigModel.Gen.PyFun
 import RigModel.Lemmas.C05Dict
 set_option linter.unusedSimpArgs false
 set_option linter.unusedVariables false
+set_option linter.unusedTactic false
+set_option linter.unreachableTactic false
 
 namespace Rig.C05
 open Rig.Gen Rig.PyDict
@@ -33,19 +35,42 @@ theorem OffEq.trans {res : Nat} {a b c : List (Nat × Int)} (h1 : OffEq res a b)
 theorem OffEq.set (res : Nat) (rp : List (Nat × Int)) (v : Int) : OffEq res rp (pyDictSet rp res v) :=
   fun r hr => lookup_pyDictSet_ne rp v hr
 
-theorem loop7_step (res : Nat) (pv : Int × Int) (rp : List (Nat × Int)) (b : Bool) (r : Slice) :
-    PyFun.allocate_loop7 res pv (rp, b) (encS r) =
-      if slicesOverlap ⟨pv.1, pv.2⟩ r then (pyDictSet rp res r.stop, true) else (rp, b) := by
-  have e : PyFun.slices_overlap pv (encS r) = slicesOverlap ⟨pv.1, pv.2⟩ r := rfl
+/-- the overlap test of the scans, whichever way round the two ranges are passed -/
+theorem so_eq (pv : Int × Int) (r : Slice) :
+    PyFun.slices_overlap pv (encS r) = slicesOverlap ⟨pv.1, pv.2⟩ r := by
+  unfold PyFun.slices_overlap slicesOverlap
+  exact decide_eq_decide.mpr (by simp only [encS]; try omega)
+
+theorem so_eq' (pv : Int × Int) (r : Slice) :
+    PyFun.slices_overlap (encS r) pv = slicesOverlap ⟨pv.1, pv.2⟩ r := by
+  unfold PyFun.slices_overlap slicesOverlap
+  exact decide_eq_decide.mpr (by simp only [encS]; try omega)
+
+/-- one step of a reservation scan, as the model's `scan` does it on the pointer dict -/
+def ScanStep (res : Nat) (pv : Int × Int)
+    (F : List (Nat × Int) × Bool → Int × Int → List (Nat × Int) × Bool) : Prop :=
+  ∀ (rp : List (Nat × Int)) (b : Bool) (r : Slice),
+    F (rp, b) (encS r) = if slicesOverlap ⟨pv.1, pv.2⟩ r then (pyDictSet rp res r.stop, true) else (rp, b)
+
+/-- body of `for reservation in globally_reserved[resource]` -/
+theorem loop7_step (res : Nat) (pv : Int × Int) : ScanStep res pv (PyFun.allocate_loop7 res pv) := by
+  intro rp b r
   unfold PyFun.allocate_loop7
-  simp only [e]
+  simp only [so_eq, so_eq']
   split <;> simp_all [encS]
 
-theorem loop8_eq : PyFun.allocate_loop8 = PyFun.allocate_loop7 := rfl
+/-- body of `for reservation in local_reservations` -/
+theorem loop8_step (res : Nat) (pv : Int × Int) : ScanStep res pv (PyFun.allocate_loop8 res pv) := by
+  intro rp b r
+  unfold PyFun.allocate_loop8
+  simp only [so_eq, so_eq']
+  split <;> simp_all [encS]
 
-theorem gen_scan (res : Nat) (pv : Int × Int) : ∀ (rs : List Slice) (rp : List (Nat × Int)) (p : Int) (b : Bool),
+theorem gen_scan (res : Nat) (pv : Int × Int)
+    (F : List (Nat × Int) × Bool → Int × Int → List (Nat × Int) × Bool) (hF : ScanStep res pv F) :
+    ∀ (rs : List Slice) (rp : List (Nat × Int)) (p : Int) (b : Bool),
     rp.lookup res = some p →
-    ∃ rp', List.foldl (PyFun.allocate_loop7 res pv) (rp, b) (rs.map encS)
+    ∃ rp', List.foldl F (rp, b) (rs.map encS)
         = (rp', (scan ⟨pv.1, pv.2⟩ rs (p, b)).2) ∧
       rp'.lookup res = some (scan ⟨pv.1, pv.2⟩ rs (p, b)).1 ∧ OffEq res rp rp' := by
   intro rs
@@ -53,7 +78,7 @@ theorem gen_scan (res : Nat) (pv : Int × Int) : ∀ (rs : List Slice) (rp : Lis
   | nil => intro rp p b h; exact ⟨rp, rfl, h, OffEq.refl _ _⟩
   | cons r rs ih =>
     intro rp p b h
-    simp only [List.map_cons, List.foldl_cons, loop7_step, scan]
+    simp only [List.map_cons, List.foldl_cons, hF rp b r, scan]
     by_cases ho : slicesOverlap ⟨pv.1, pv.2⟩ r = true
     · simp only [ho, if_true]
       obtain ⟨rp', h1, h2, h3⟩ := ih (pyDictSet rp res r.stop) r.stop true (lookup_pyDictSet_self _ _ _)
@@ -76,13 +101,18 @@ theorem loop6_step (mget : (Int × Int) → Except String (List (Nat × Int))) (
       if start + d > cap then
         (true, some (.error "InsufficientResourceError"), some (start, start + d), false, rp)
       else
-        let s2 := List.foldl (PyFun.allocate_loop7 res (start, start + d))
+        let s2 := List.foldl (PyFun.allocate_loop8 res (start, start + d))
           (List.foldl (PyFun.allocate_loop7 res (start, start + d)) (rp, false) (pyDictGetD G res []))
           (pyDictGetD (pyDictGetD L xy []) res [])
         (false, none, some (start, start + d), s2.2, s2.1) := by
   have e : ∀ v al, PyFun.align v al = align v al := fun _ _ => rfl
   unfold PyFun.allocate_loop6
-  simp only [pyDictGet_eq, hp, hm, hc, e, loop8_eq]
+  simp only [pyDictGet_eq, hp, hm, hc, e]
+  all_goals first
+    | rfl
+    | exact (by simp only [Int.add_comm d, gt_iff_lt])
+    | exact (by simp [Int.add_comm, gt_iff_lt])
+    | (split <;> simp_all [Int.add_comm])
 
 theorem pyWhile_stop {σ : Type} (cond : σ → Bool) (body : σ → σ) (f : Nat) (s : σ) (h : cond s = false) :
     pyWhile cond body f s = some s := by
@@ -127,8 +157,8 @@ theorem gen_propose (mget : (Int × Int) → Except String (List (Nat × Int))) 
         exact ⟨_, _, _, pyWhile_stop _ _ _ _ (by simp [PyFun.allocate_loop6_cond])⟩
       · intro h; simp at h
     · simp only [hcap, if_false]
-      obtain ⟨rp1, e1, k1, o1⟩ := gen_scan res (align p (pyDictGetD A res 1), align p (pyDictGetD A res 1) + d) g rp p false hp
-      obtain ⟨rp2, e2, k2, o2⟩ := gen_scan res (align p (pyDictGetD A res 1), align p (pyDictGetD A res 1) + d) l rp1 _ 
+      obtain ⟨rp1, e1, k1, o1⟩ := gen_scan res (align p (pyDictGetD A res 1), align p (pyDictGetD A res 1) + d) _ (loop7_step _ _) g rp p false hp
+      obtain ⟨rp2, e2, k2, o2⟩ := gen_scan res (align p (pyDictGetD A res 1), align p (pyDictGetD A res 1) + d) _ (loop8_step _ _) l rp1 _ 
         (scan ⟨align p (pyDictGetD A res 1), align p (pyDictGetD A res 1) + d⟩ g (p, false)).2 k1
       rw [e1, e2]
       simp only
@@ -351,5 +381,131 @@ theorem gen_allocOne {inp : Input} {G : List (Nat × List (Int × Int))}
           simp [lookup_pyDictSet_self, hk, setPtr]
         · rw [lookup_pyDictSet_ne _ _ hrr, off r hrr, hr r]
           simp [setPtr, hrr]
+
+/-! ### the constraint collection loop -/
+
+def encC : Constraint → PyFun.allocate_constraints_elem
+  | .reserve r s loc => .ReserveResourceConstraint r (encS s) loc
+  | .align r a => .AlignResourceConstraint r a
+  | .other => .other
+
+theorem loop1_step (G : List (Nat × List (Int × Int))) (L : List ((Int × Int) × List (Nat × List (Int × Int))))
+    (A : List (Nat × Int)) (c : Constraint) :
+    PyFun.allocate_loop1 (G, L, A) (encC c) =
+      match c with
+      | .reserve r s none => (pyDictMod G r [] (fun l => l ++ [encS s]), L, A)
+      | .reserve r s (some loc) =>
+        (G, pyDictMod L loc [] (fun d => pyDictMod d r [] (fun l => l ++ [encS s])), A)
+      | .align r a => (G, L, pyDictSet A r a)
+      | .other => (G, L, A) := by
+  cases c with
+  | reserve r s loc => cases loc <;> rfl
+  | align r a => rfl
+  | other => rfl
+
+theorem getD_pyDictMod {κ α : Type} [BEq κ] [LawfulBEq κ] [DecidableEq κ] (d : List (κ × α)) (k k' : κ) (dflt : α) (f : α → α) :
+    pyDictGetD (pyDictMod d k dflt f) k' dflt = if k' = k then f (pyDictGetD d k dflt) else pyDictGetD d k' dflt := by
+  simp only [pyDictGetD, lookup_pyDictMod]
+  by_cases h : k' = k
+  · subst h; simp
+  · have : (k' == k) = false := by simpa using h
+    simp [h, this]
+
+theorem getD_pyDictSet {κ α : Type} [BEq κ] [LawfulBEq κ] [DecidableEq κ] (d : List (κ × α)) (k k' : κ) (dflt v : α) :
+    pyDictGetD (pyDictSet d k v) k' dflt = if k' = k then v else pyDictGetD d k' dflt := by
+  simp only [pyDictGetD, lookup_pyDictSet]
+  by_cases h : k' = k
+  · subst h; simp
+  · have : (k' == k) = false := by simpa using h
+    simp [h, this]
+
+/-- the step of `alignment` -/
+def alignStep (res : Res) (a : Int) (c : Constraint) : Int :=
+  match c with
+  | .align r al => if r = res then al else a
+  | _ => a
+
+theorem alignment_eq (cs : List Constraint) (res : Res) : alignment cs res = cs.foldl (alignStep res) 1 := rfl
+
+/-- the generated constraint loop, started from any three dicts: what the three dicts answer afterwards -/
+theorem gen_collect : ∀ (cs : List Constraint) (G : List (Nat × List (Int × Int)))
+    (L : List ((Int × Int) × List (Nat × List (Int × Int)))) (A : List (Nat × Int)),
+    (∀ res, pyDictGetD (List.foldl PyFun.allocate_loop1 (G, L, A) (cs.map encC)).1 res []
+        = pyDictGetD G res [] ++ (globalRes cs res).map encS) ∧
+    (∀ xy res, pyDictGetD (pyDictGetD (List.foldl PyFun.allocate_loop1 (G, L, A) (cs.map encC)).2.1 xy []) res []
+        = pyDictGetD (pyDictGetD L xy []) res [] ++ (localRes cs xy res).map encS) ∧
+    (∀ res, pyDictGetD (List.foldl PyFun.allocate_loop1 (G, L, A) (cs.map encC)).2.2 res 1
+        = cs.foldl (alignStep res) (pyDictGetD A res 1)) := by
+  intro cs
+  induction cs with
+  | nil => intro G L A; simp [globalRes, localRes]
+  | cons c cs ih =>
+    intro G L A
+    simp only [List.map_cons, List.foldl_cons, loop1_step]
+    cases c with
+    | reserve r s loc =>
+      cases loc with
+      | none =>
+        obtain ⟨i1, i2, i3⟩ := ih (pyDictMod G r [] (fun l => l ++ [encS s])) L A
+        refine ⟨?_, ?_, ?_⟩
+        · intro res
+          rw [i1 res, getD_pyDictMod]
+          by_cases h : res = r
+          · subst h; simp [globalRes, List.filterMap_cons]
+          · have h' : ¬ r = res := fun e => h e.symm
+            simp [globalRes, List.filterMap_cons, h, h']
+        · intro xy res
+          rw [i2 xy res]
+          simp [localRes, List.filterMap_cons]
+        · intro res
+          rw [i3 res]; rfl
+      | some loc =>
+        obtain ⟨i1, i2, i3⟩ := ih G (pyDictMod L loc [] (fun d => pyDictMod d r [] (fun l => l ++ [encS s]))) A
+        refine ⟨?_, ?_, ?_⟩
+        · intro res
+          rw [i1 res]
+          simp [globalRes, List.filterMap_cons]
+        · intro xy res
+          rw [i2 xy res, getD_pyDictMod]
+          by_cases h : xy = loc
+          · subst h
+            rw [if_pos rfl, getD_pyDictMod]
+            by_cases h2 : res = r
+            · subst h2; simp [localRes, List.filterMap_cons]
+            · have h' : ¬ r = res := fun e => h2 e.symm
+              simp [localRes, List.filterMap_cons, h2, h']
+          · have h' : ¬ loc = xy := fun e => h e.symm
+            simp [localRes, List.filterMap_cons, h, h']
+        · intro res
+          rw [i3 res]; rfl
+    | align r a =>
+      obtain ⟨i1, i2, i3⟩ := ih G L (pyDictSet A r a)
+      refine ⟨?_, ?_, ?_⟩
+      · intro res; rw [i1 res]; simp [globalRes, List.filterMap_cons]
+      · intro xy res; rw [i2 xy res]; simp [localRes, List.filterMap_cons]
+      · intro res
+        rw [i3 res, getD_pyDictSet]
+        by_cases h : res = r
+        · subst h; simp [alignStep]
+        · have h' : ¬ r = res := fun e => h e.symm
+          simp [alignStep, h, h']
+    | other =>
+      obtain ⟨i1, i2, i3⟩ := ih G L A
+      refine ⟨?_, ?_, ?_⟩
+      · intro res; rw [i1 res]; simp [globalRes, List.filterMap_cons]
+      · intro xy res; rw [i2 xy res]; simp [localRes, List.filterMap_cons]
+      · intro res; rw [i3 res]; rfl
+
+/-- **the three dicts that `allocate` builds from the constraints hold exactly what the model reads off the
+constraint list** (the hypothesis `Tables` of `gen_allocOne`) -/
+theorem gen_tables (inp : Input) :
+    Tables inp (List.foldl PyFun.allocate_loop1 ([], [], []) (inp.constraints.map encC)).1
+      (List.foldl PyFun.allocate_loop1 ([], [], []) (inp.constraints.map encC)).2.1
+      (List.foldl PyFun.allocate_loop1 ([], [], []) (inp.constraints.map encC)).2.2 := by
+  obtain ⟨i1, i2, i3⟩ := gen_collect inp.constraints [] [] []
+  refine ⟨?_, ?_, ?_⟩
+  · intro res; rw [i1 res]; simp [pyDictGetD]
+  · intro xy res; rw [i2 xy res]; simp [pyDictGetD]
+  · intro res; rw [i3 res, alignment_eq]; simp [pyDictGetD]
 
 end Rig.C05
